@@ -51,7 +51,7 @@ for p in /verif/mutants/*.patch; do
   n=$(basename $p); 
   case $n in
     F01*) c="C04 C05 C01 C02";; F02*) c="C02 C01";; F03*) c="C10";; F04*) c="C12";; F05*) c="C13";; F06*) c="C14";; F07*) c="C15";; F08*) c="C15 C06";;
-    F09*) c="C16";; F11*) c="C17";; F12*) c="C17 C01 C07";; F13*) c="C18 C01";; F14*) c="C19";; F15*) c="C02 C01";; M06*) c="C06";; *) c="";;
+    F09*) c="C16";; M16*) c="C16";; F11*) c="C17";; F12*) c="C17 C01 C07";; F13*) c="C18 C01";; F14*) c="C19";; F15*) c="C02 C01";; M06*) c="C06";; *) c="";;
   esac
   [ -n "$c" ] && run $p $c
 done
